@@ -11,4 +11,7 @@ def draw(rng):
     loop = rng.choice(["simple", "plus"])
     if sel in ("best", "worst", "nsga2", "spea2"):
         loop = "plus"          # deterministic truncation selections only make sense on parents + offspring
-    return {"repr": rep, "sel": sel, "cx": rng.choice(CX[rep]), "mut": rng.choice(MUT[rep]), "loop": loop}
+    # weights: magnitude != 1; mixed sign except for the fitness-proportional selections (they need positive values)
+    ws = [(1.0, 1.0), (2.0, 0.5), (0.1, 3.0)] + ([] if sel in ("roulette", "sus") else [(-0.3, 2.75), (1.5, -0.01)])
+    return {"repr": rep, "sel": sel, "cx": rng.choice(CX[rep]), "mut": rng.choice(MUT[rep]), "loop": loop,
+            "weights": list(rng.choice(ws))}
